@@ -299,8 +299,7 @@ class TrX(pyz.Tr):
             if ty in ("NL", "ML", "LS"):
                 a, ta = then_k(env)
                 b, tb = else_k(env)
-                if ta != tb:
-                    raise Unsupported("branch types differ: %s vs %s" % (ta, tb))
+                a, b, ta = self.unify(a, ta, b, tb)
                 return "(if (negb (is_nil %s)) then %s else %s)" % (t, a, b), ta
         if isinstance(test, ast.Compare) and len(test.ops) == 1 \
                 and isinstance(test.ops[0], (ast.Is, ast.IsNot)) \
@@ -313,8 +312,7 @@ class TrX(pyz.Tr):
             if ty == "FCS":
                 a, ta = then_k(env)
                 b, tb = else_k(env)
-                if ta != tb:
-                    raise Unsupported("branch types differ")
+                a, b, ta = self.unify(a, ta, b, tb)
                 c_ = "(negb (fcs_is_none %s))" % t if neg else "(fcs_is_none %s)" % t
                 return "(if %s then %s else %s)" % (c_, a, b), ta
         if isinstance(test, ast.BoolOp) and isinstance(test.op, ast.And) and len(test.values) > 2:
@@ -334,16 +332,18 @@ class TrX(pyz.Tr):
             if tc == "RB":
                 a, ta = then_k(env)
                 b, tb = else_k(env)
-                if ta != tb:
-                    raise Unsupported("branch types differ: %s vs %s" % (ta, tb))
-                if not is_r(ta):
-                    raise Unsupported("raising comparison in a total function")
+                a, b, ta = self.unify(a, ta, b, tb)
+                if ta != "RAISE" and not is_r(ta):
+                    a, ta = self.lift(a, ta)
+                    b, tb = self.lift(b, tb)
                 return "(match %s with Err => Err | Ok true => %s | Ok false => %s end)" \
                     % (c_, a, b), ta
         return super().cond(test, env, then_k, else_k)
 
     # ---- statements ------------------------------------------------------------------------------
     def ret_type(self):
+        if self.kind == "inl":
+            return "RAISE"
         if self.kind == "loopchk":
             return "RU"
         if self.kind == "proc" and self.cfg.get("final"):
@@ -378,10 +378,14 @@ class TrX(pyz.Tr):
             return self.block(rest, env)
         if isinstance(s, ast.Expr) and isinstance(s.value, ast.Call):
             t, ty = self.expr(s.value, env)
+            if ty == "U":
+                return self.block(rest, env)
             if is_r(ty):
-                if self.kind not in ("rfun", "proc", "rgen", "loopchk"):
+                if self.kind not in ("rfun", "proc", "rgen", "loopchk", "inl"):
                     raise Unsupported("raising call in total function")
                 body, bty = self.block(rest, env)
+                if self.kind == "inl":
+                    body, bty = self.lift(body, bty)
                 return "(match %s with Err => Err | Ok _ => %s end)" % (t, body), bty
             raise Unsupported("expression statement of type " + ty)
         if isinstance(s, ast.Assign) and len(s.targets) == 1:
@@ -439,11 +443,13 @@ class TrX(pyz.Tr):
             if isinstance(tg, ast.Name):
                 t, ty = self.expr(s.value, env) if not pyz._is_string_expr(s.value) else (None, None)
                 if t is not None and is_r(ty) and ty not in ("RZ", "RL", "RV", "RLP", "RU"):
-                    if self.kind not in ("rfun", "proc", "rgen", "loopchk"):
+                    if self.kind not in ("rfun", "proc", "rgen", "loopchk", "inl"):
                         raise Unsupported("raising call in total function")
                     env2 = dict(env)
                     env2[tg.id] = (cname(tg.id), ty[1:])
                     body, bty = self.block(rest, env2)
+                    if self.kind == "inl":
+                        body, bty = self.lift(body, bty)
                     return "(match %s with Err => Err | Ok %s => %s end)" % (t, cname(tg.id), body), bty
                 if t is not None and ty in ("STRS", "KS", "TYS", "NL", "MKL", "ML", "IX", "MK", "K"):
                     env2 = dict(env)
@@ -471,6 +477,8 @@ class TrX(pyz.Tr):
                 % (x, inner, src, body), bty
         if isinstance(s, ast.Raise) and self.kind == "loopchk":
             return "Err", "RU"
+        if isinstance(s, ast.Return) and self.kind == "inl":
+            return super().block(stmts, env)
         if isinstance(s, ast.Return):
             if self.kind == "proc" and self.cfg.get("ignore_return"):
                 return self.finish(env)
@@ -656,6 +664,7 @@ def translate_function_x(mod, cfg, calls, gens=None):
     if "select" in cfg:
         body = cfg["select"](fn)
     tr = TrX(fn, cfg, calls, gens)
+    tr.mod = mod
     term, ty = tr.block(list(body), env)
     seen = []
     for coq, ty_ in params:
